@@ -201,8 +201,10 @@ def zoom_to_stream(R: Run, ops, cxE):
             ds = [d for d in range(1, max(nmax, 1) + 1) if nmax and nmax % d == 0] or [1]
             n = rng.choice([rng.choice(ds), rng.choice(ds) * 2, rng.randint(1, 3 * max(nmax, 1)), 0])
             mk = rng.choice(["int", "int", "float", "bool", "np.float64", "frac"])
-            if n == 0 and mk == "np.float64":
-                mk = "float"  # numpy scalars divide by zero to inf (RuntimeWarning) instead of raising: outside the model
+            if (n == 0 or nmax == 0) and mk == "np.float64":
+                # numpy scalars divide by zero to inf / nan (RuntimeWarning) instead of raising ZeroDivisionError, also for an
+                # empty geobox (nmax == 0: 0.0 / 0 is nan, ceil(nan) a ValueError): outside the model
+                mk = "float"
             n_arg = {"int": n, "float": float(n), "bool": True, "np.float64": np.float64(n), "frac": n + 0.5}[mk]
             ztok, zobj, zsp = "#" + num_tok(n_arg), n_arg, "num-" + mk
             q = F(float(n_arg))
